@@ -427,6 +427,10 @@ def build(name, argseed, dadi, env):
         model, p0, data, boots = env.get("godambe-%d" % (argseed % 2), lambda: _linear_model(dadi, rng_of("godambe-env", argseed % 2)))
         scale = [1.0, float(rng.choice([0.5, 0.8, 1.25, 2.0])), 1.0]
         p = [float(v) for v in p0 * np.array(scale)]
+        if int(argseed) == 2:
+            p = np.array(p, dtype=float)       # the parameter vector as a float64 array (the caller's own object must come back untouched)
+        if fn == "Wald_stat":
+            return (lambda q: Godambe.Wald_stat(model, [10], boots, q, data, [1], [float(v) for v in np.asarray(q) * np.array([1.0, 1.3, 1.0])], multinom=False)), [p], {}, F
         if fn == "FIM_uncert":
             return (lambda q: Godambe.FIM_uncert(model, [10], q, data, multinom=False)), [p], {}, F
         if fn == "GIM_uncert":
@@ -512,7 +516,7 @@ CATALOG = (
                                     "one_pop-zeroT", "two_pops-zeroT", "three_pops-zeroT")]
     + ["Inference." + m for m in ("ll", "ll_multinom", "ll_per_bin", "optimal_sfs_scaling", "optimally_scaled_sfs", "linear_Poisson_residual",
                                   "Anscombe_Poisson_residual", "project_up", "project_down")]
-    + ["Godambe." + m for m in ("get_hess", "sum_chi2_ppf", "FIM_uncert", "GIM_uncert", "LRT_adjust", "score_stat")]
+    + ["Godambe." + m for m in ("get_hess", "sum_chi2_ppf", "FIM_uncert", "GIM_uncert", "LRT_adjust", "score_stat", "Wald_stat")]
     + ["LowPass." + m for m in ("partitions", "projection_matrix", "calling_error_matrix", "no_call", "lowpass_model", "cov_dist_model")]
     + ["Misc." + m for m in ("count_data_dict", "fragment_data_dict", "perturb_params")]
     + ["DFE.integrate", "DFE.integrate_point_pos", "Demes.output"]
